@@ -118,7 +118,7 @@ inline std::string fmtd(double v) { char b[40]; snprintf(b, sizeof b, "%.6g", v)
 inline std::string Model::staticPart() const {
     std::ostringstream s;
     const int n = nx * ny * nz;
-    s << "RUNSPEC\nTITLE\n gdeck model\nDIMENS\n " << nx << " " << ny << " " << nz << " /\nOIL\nGAS\nWATER\nDISGAS\n" << units << "\n";
+    s << "RUNSPEC\nTITLE\n gdeck model\nDIMENS\n " << nx << " " << ny << " " << nz << " /\nOIL\nGAS\nWATER\nDISGAS\n" << units << "\n" << runspecExtra;
     s << "START\n " << startDate << " /\nWELLDIMS\n 30 20 15 30 /\nWSEGDIMS\n 5 30 10 /\nTABDIMS\n/\nEQLDIMS\n/\nREGDIMS\n 3 /\n";
     s << "UDQDIMS\n 50 50 10 10 10 10 10 10 10 10 10 /\nUDADIMS\n 20 1* 20 /\nACTDIMS\n 20 50 80 10 /\nVFPPDIMS\n 10 10 10 10 10 5 /\nVFPIDIMS\n 10 10 5 /\n";
     if (hasNetwork) s << "NETWORK\n 10 10 /\n";
@@ -170,6 +170,7 @@ public:
             if (rng.chance(0.4)) { m.gridExtra = "BCCON\n 1 1 1 1 " + std::to_string(m.ny) + " 1 " + std::to_string(m.nz) + " 'X-' /\n 2 " + std::to_string(m.nx) + " " + std::to_string(m.nx) + " 1 " + std::to_string(m.ny) + " 1 " + std::to_string(m.nz) + " 'X' /\n/\n"; m.hasBccon = true; }
             // an analytic aquifer below the bottom layer (cell ranges are what the C20 boundary sweep steps through)
             if (rng.chance(0.3)) {
+                m.runspecExtra += "AQUDIMS\n 1 1 2 36 2 200 /\n";
                 m.solutionExtra += std::string(rng.chance(0.5) ? "AQUFETP\n 1 2100 250 1E8 1E-5 50 1 /\n/\n" : "AQUCT\n 1 2100 250 100 0.2 1E-5 1000 20 90 1 1 /\n/\n");
                 m.solutionExtra += "AQUANCON\n 1 1 " + std::to_string(m.nx) + " 1 " + std::to_string(m.ny) + " " + std::to_string(m.nz) + " " + std::to_string(m.nz) + " 'K+' " + (rng.chance(0.5) ? "1* 1*" : "500 1.5") + " " + (rng.chance(0.5) ? "'YES'" : "'NO'") + " /\n/\n";
             }
